@@ -1,10 +1,12 @@
 import runner
+import consts_stream
 import uper_streams
 from checks.uper_common import ASSUMPTIONS, TRUSTED
 
 
 class Spec(runner.Spec):
     prop = "C05"
-    streams = [uper_streams.CrossVersion()]
-    assumptions = ASSUMPTIONS
+    # `consts`: the descriptor constants the codec sees, re-derived from the ASN.1 source of the zoo
+    streams = [uper_streams.CrossVersion(), consts_stream.ConstsFromSource("C05")]
+    assumptions = ASSUMPTIONS + ["the property quantifies over source schemas, the codec sees descriptors: stream `consts` compares every zoo type's descriptor constants with an expectation derived from the ASN.1 text by tools/consts_stream.py (own parser) and with Codegen/ConstsModel.lean; recorded deviations of the generator (findings of C08) are accepted as coded"]
     trusted_base = TRUSTED
